@@ -67,3 +67,6 @@ let str_of_bool b = if b then "1" else "0"
 (* op name -> handler: arguments (without the op) -> (model result, spec result or "-") *)
 let ops : (string, string list -> string * string) Hashtbl.t = Hashtbl.create 64
 let register name f = Hashtbl.replace ops name f
+
+(* the implementation's result line for the current case, when the driver was given them *)
+let impl_result : string option ref = ref None
